@@ -6,7 +6,7 @@
 From Coq Require Import List NArith ZArith Bool.
 From Coq Require Import Strings.Byte.
 From UF Require Import Base.Lit Base.Bytes Model.Netip Model.NetRule Model.Rule Model.Request Model.Match
-  Model.Engines Model.Session Proofs.SessionProofs.
+  Model.Engines Model.Session Model.SliceHeap Proofs.SessionProofs Proofs.SliceHeapProofs.
 Import ListNotations.
 
 (* For every hash function, PSL function, storage content, pair of engines sharing the storage, and EVERY
@@ -65,3 +65,22 @@ Theorem C13_dns_match_pure : forall hash psl backing ne de V,
        (dns_match hash psl (vnet V) (vhost V) de hostname (new_hostname_request psl hostname cn ip tags t)).
 Proof. exact pure_dns_match. Qed.
 Print Assumptions C13_dns_match_pure.
+
+(* "evaluating derived results alters neither the engine nor previously returned results" — the aliasing clause,
+   on a model of Go slices (backing arrays, offset, length, capacity, append with ANY growth policy):
+   removeDNSRewriteRules returns the filtered contents and writes into NO array that existed before the call,
+   whatever spare capacity or sharing the caller's slice has (the capacity-limited reslice rules[:i:i] forces
+   the first append to reallocate) *)
+Theorem C13_alias_remove_dnsrewrite : forall V zero extra isrw h s, wf V h s ->
+  let r := remove_rw V zero extra isrw h s in
+  SliceHeap.contents V (fst r) (snd r) = filter (fun v => negb (isrw v)) (SliceHeap.contents V h s) /\
+  frame V (length h) h (fst r).
+Proof. exact remove_rw_spec. Qed.
+Print Assumptions C13_alias_remove_dnsrewrite.
+(* DNSRewritesAll / the split of DNSRewrites: selecting into a nil slice builds fresh arrays only *)
+Theorem C13_alias_fresh_selection : forall V zero extra p h s,
+  let r := select_fresh V zero extra p h s in
+  SliceHeap.contents V (fst r) (snd r) = filter p (SliceHeap.contents V h s) /\ frame V (length h) h (fst r).
+Proof. exact select_fresh_spec. Qed.
+Print Assumptions C13_alias_fresh_selection.
+(* (the limit matters: Example nolimit_overwrites_caller in SliceHeapProofs.v shows rules[:i] overwriting the caller) *)
